@@ -41,4 +41,19 @@ SigEmptyAlphabet(x) == x.t = "str" /\ IsNone(x.value) /\ IsSome(x.alphabet) /\ G
 \* an escaping exception is the recorded float-rounding finding or nothing
 FloatRoundKnown(x) == \E y \in SubSchemas(x) : y.t = "float" /\ IsSome(y.value) /\ IsSome(y.precision)
 
+KnownGen(x) ==
+  \E y \in SubSchemas(x) :
+     \/ DEV_FloatGridTruncates /\ SigFloatGrid(y)
+     \/ DEV_DefaultMaxBelowMin /\ SigDefaultBound(y)
+     \/ DEV_ListEllipsisLenIgnored /\ SigListEllLen(y)
+     \/ SigEmptyAlphabet(y)
+     \/ SigFloatGrid(y) /\ IsSome(y.min) /\ IsSome(y.max)      \* F5: no grid point in [min, max]
+
+
+\* the open generation findings, as pure signatures (independent of the DEV_ switches)
+KnownGenSig(x) ==
+  \E y \in SubSchemas(x) :
+     \/ SigEmptyAlphabet(y)
+     \/ SigFloatGrid(y) /\ IsSome(y.min) /\ IsSome(y.max)
+
 =============================================================================
